@@ -424,6 +424,8 @@ def check(facts, rep, tier, cfg):
     check_refusal_is_broken_pipe(facts, rep, crate, "C08.R10")
     rep.rule("C08.R11", "outside the wind-down every error of the WebSocket sink / source is propagated with `?` (the loop ends and the task winds down)")
     check_transport_errors_end_loops(facts, rep, crate)
+    import adapter
+    adapter.check_adapter(facts, rep, "C08.S8")
     rep.rule("C08.S7", "who-may: the functions that touch the critical resources behind this property are those of the reference tree (flow table, closed flag, per-stream / datagram / outbound queues, last-pong timestamp, client id maps, shared TLS identity)")
     import whomay
     whomay.check(facts, rep, "C08.S7", "C08")
